@@ -22,6 +22,8 @@ type evaluator struct {
 	where string // clause location for error messages
 	implFor types.Type // when verifying an implementation of an interface contract
 	preloop *state // state just before the enclosing loop's havoc (preloop(e))
+	loopMark int64
+	inLoop bool
 }
 
 type evalErr struct{ msg string }
@@ -654,6 +656,16 @@ func (ev *evaluator) call(x *ECall) Val {
 			return Val{t: app("<", "Bool", ev.term(v), refConst(0)), typ: types.Typ[types.Bool]}
 		}
 		ev.fail("isfresh of %s", v.typ)
+	case "sinceLoop":
+		// sinceLoop(s): the backing array of s was allocated after the enclosing loop was entered (or s is nil)
+		if !ev.inLoop {
+			ev.fail("sinceLoop() is only available in loop invariants")
+		}
+		v := ev.eval(x.Args[0])
+		if _, ok := v.typ.Underlying().(*types.Slice); !ok {
+			ev.fail("sinceLoop of %s", v.typ)
+		}
+		return Val{t: mkOr(mkEq(c.slRef(v.t), refConst(0)), app("<", "Bool", c.slRef(v.t), refConst(-ev.loopMark))), typ: types.Typ[types.Bool]}
 	case "sameSlice":
 		a, b := ev.eval(x.Args[0]), ev.eval(x.Args[1])
 		return Val{t: mkEq(a.t, b.t), typ: types.Typ[types.Bool]}
@@ -683,6 +695,21 @@ func (ev *evaluator) call(x *ECall) Val {
 		a := ev.eval(x.Args[0])
 		t := ev.resolveType(exprString(x.Args[1]))
 		return Val{t: mkSel(c.ifaceCtor(t), 0, a.t), typ: t}
+	case "ns":
+		a := ev.eval(x.Args[0])
+		return Val{t: c.timeNs(a.t), typ: types.Typ[types.Int]}
+	case "isUTC":
+		a := ev.eval(x.Args[0])
+		return Val{t: c.timeUTC(a.t), typ: types.Typ[types.Bool]}
+	case "calYear", "calMonth", "calDay", "civilDay":
+		var ts []*T
+		var sorts []string
+		for _, a := range x.Args {
+			ts = append(ts, ev.toInt(ev.eval(a)))
+			sorts = append(sorts, "Int")
+		}
+		c.d.fun(id.Name, sorts, "Int")
+		return Val{t: app(id.Name, "Int", ts...), typ: types.Typ[types.Int]}
 	case "fdiv", "fmod":
 		// floor division / modulus (equal to Go's / and % when the dividend is non-negative and the divisor positive)
 		a := ev.typed(ev.eval(x.Args[0]), types.Typ[types.Int])
